@@ -574,6 +574,8 @@ def np_zeros(I, args, kwargs):
 def np_hstack(I, args, kwargs):
     parts = [to_arr(I, p) for p in I.iter_concrete(args[0])]
     if any(p.ndim != 1 for p in parts):
+        if all(p.ndim == 3 for p in parts) and kwargs.get("axis") == 2:
+            return concat3_last(I, parts)
         if kwargs.get("axis") in (1, -1) or I.cur_node.func.attr == "hstack":
             return hstack2(I, parts)
         raise Undecided("concatenate nd")
@@ -594,6 +596,22 @@ def concat1(I, parts):
             out = If(to_z3(i) < to_z3(pure_arith(I, "Add", o, p.len)), p.fn(pure_arith(I, "Sub", i, o)), out)
         return out
     return SArr((total,), fn, dt, "ndarray")
+
+
+def concat3_last(I, parts):
+    a0, a1 = parts[0].shape[0], parts[0].shape[1]
+    total = 0
+    offs = []
+    for p in parts:
+        offs.append(total)
+        total = pure_arith(I, "Add", total, p.shape[2])
+
+    def fn(i, j, k):
+        out = parts[-1].fn(i, j, pure_arith(I, "Sub", k, offs[-1]))
+        for p, o in list(zip(parts, offs))[-2::-1]:
+            out = If(to_z3(k) < to_z3(pure_arith(I, "Add", o, p.shape[2])), p.fn(i, j, pure_arith(I, "Sub", k, o)), out)
+        return out
+    return SArr((a0, a1, total), fn, "real", "ndarray")
 
 
 def hstack2(I, parts):
@@ -674,6 +692,9 @@ def arr_ravel(I, recv, args, kwargs):
         r, c = recv.shape
         if not is_sym(c) and c == 1:
             return SArr((r,), lambda i: recv.fn(i, 0), recv.dtype, recv.kind)
+        if not is_sym(r) and r == 1:
+            return SArr((c,), lambda i: recv.fn(0, i), recv.dtype, recv.kind)
+        return SArr((_mul(I, r, c),), lambda q: recv.fn(_zdiv(q, c), _zmod(q, c)), recv.dtype, recv.kind)
     raise Undecided("ravel nd")
 
 
@@ -773,3 +794,90 @@ def arr_getitem_m(I, recv, args, kwargs):
 @method("arr", "__divmod__", "__rdivmod__")
 def arr_divmod(I, recv, args, kwargs):
     raise Undecided("divmod on index")
+
+
+# ----------------------------------------------------------------------------- reshape / stacking (C-order)
+
+def _mul(I, a, b):
+    return ops.scalar_arith(I.ctx, "Mult", a, b)
+
+
+def _zdiv(a, b):
+    """floor division for b > 0 as a pure term (z3 div), usable under quantifiers"""
+    if not is_sym(a) and not is_sym(b):
+        return a // b
+    return simp(to_z3(a) / to_z3(b))
+
+
+def _zmod(a, b):
+    if not is_sym(a) and not is_sym(b):
+        return a % b
+    return simp(to_z3(a) % to_z3(b))
+
+
+@method("arr", "reshape")
+def arr_reshape(I, recv, args, kwargs):
+    shp = list(args[0].items) if len(args) == 1 and isinstance(args[0], SList) else list(args)
+    a = recv
+    USED.add("ndarray.reshape: C-order (row-major) re-indexing")
+
+    def is_m1(x):
+        return not is_sym(x) and x == -1
+    if a.ndim == 1 and len(shp) == 2:
+        n = a.len
+        if (is_m1(shp[0]) or shp[0] is n) and (not is_sym(shp[1]) and shp[1] == 1):
+            return SArr((n, 1), lambda i, j: a.fn(i), a.dtype, "ndarray")
+        if (not is_sym(shp[0]) and shp[0] == 1) and (is_m1(shp[1]) or shp[1] is n):
+            return SArr((1, n), lambda i, j: a.fn(j), a.dtype, "ndarray")
+        # (rows, cols) with rows*cols == n
+        rows, cols = shp
+        if is_m1(rows) or is_m1(cols):
+            raise Undecided("reshape 1d -> 2d with inferred dimension")
+        if not I.ctx.entails(Eq(_mul(I, rows, cols), n)):
+            if I.ctx.branch(Not(Eq(_mul(I, rows, cols), n)), "reshape-size-mismatch"):
+                raise SymRaise(ExcVal(ExtClass("builtins.ValueError"), ()), where="reshape: size mismatch")
+        return SArr((rows, cols), lambda i, j: a.fn(simp(to_z3(i) * to_z3(cols) + to_z3(j)) if (is_sym(i) or is_sym(cols) or is_sym(j)) else i * cols + j), a.dtype, "ndarray")
+    if a.ndim == 2 and len(shp) == 1:
+        r, c = a.shape
+        return SArr((_mul(I, r, c),), lambda q: a.fn(_zdiv(q, c), _zmod(q, c)), a.dtype, "ndarray")
+    if a.ndim == 3 and len(shp) == 2 and is_m1(shp[1]):
+        r, b, c = a.shape
+        if not (shp[0] is r) and not I.ctx.entails(Eq(shp[0], r)):
+            raise Undecided("reshape 3d -> 2d with a different leading dimension")
+        return SArr((r, _mul(I, b, c)), lambda i, q: a.fn(i, _zdiv(q, c), _zmod(q, c)), a.dtype, "ndarray")
+    if a.ndim == 2 and len(shp) == 2 and is_m1(shp[1]):
+        if shp[0] is a.shape[0] or I.ctx.entails(Eq(shp[0], a.shape[0])):
+            return a
+    raise Undecided(f"reshape {a.shape} -> {shp}")
+
+
+@lib("numpy.column_stack")
+def np_column_stack(I, args, kwargs):
+    parts = [to_arr(I, p) for p in I.iter_concrete(args[0])]
+    return hstack2(I, parts)
+
+
+@lib("numpy.expand_dims")
+def np_expand_dims(I, args, kwargs):
+    a = to_arr(I, args[0])
+    ax = arg(args, kwargs, 1, "axis")
+    if a.ndim == 2 and ax == 1:
+        return SArr((a.shape[0], 1, a.shape[1]), lambda i, j, k: a.fn(i, k), a.dtype, "ndarray")
+    raise Undecided("expand_dims")
+
+
+@lib("numpy.sum", "numpy.nansum")
+def np_sum(I, args, kwargs):
+    from .libmodels import _sum
+    v = args[0]
+    if isinstance(v, SArr) and v.dtype == "bool" and v.ndim == 1:
+        return _sum(I, [v], {})
+    raise Undecided("np.sum of numeric array")
+
+
+@lib("numpy.isinf")
+def np_isinf(I, args, kwargs):
+    v = args[0]
+    if isinstance(v, SArr):
+        return ops.map_arr(v, lambda x: False, dtype="bool", kind="ndarray")
+    return False
